@@ -534,7 +534,7 @@ def generate_richardson_integrator(basis_integrator, richardson_iter=2):
                 self.stage_values[m, 0] = self.subdiv_step(m, rhs, t, y, timestep, constants, 1 << m)[1][1]
                 for n in range(1, m + 1):
                     self.stage_values[m, n] = self.stage_values[m, n - 1] + (self.stage_values[m, n - 1] - self.stage_values[m - 1, n - 1]) / (
-                            (1 << n) - 1)
+                            2.0 ** (self.basis_order + n - 1) - 1)
                 self.solver_dict['order'] = self.basis_order + m + 1
                 if m >= 3:
                     prev_error, t_conv = self.check_converged(self.stage_values[m, n],
